@@ -283,6 +283,41 @@ class HistGen:
         if rng.random() < 0.3:
             self.exit("ok")
 
+    def p_overlap(self):
+        """C03: overlapping connect attempts (a new one starts when the back-off has expired while the previous
+        one is still unanswered); their answers arrive in every order with every outcome"""
+        rng = self.rng
+        k = 1
+        natt = rng.choice([2, 2, 3])
+        self.ops.append({"op": "appinfo", "key": k, "dt": False, "id": None})
+        for _ in range(natt - 1):
+            self.advance(rng.choice([30, 31, 45]))
+            self.ops.append({"op": "appinfo", "key": k, "dt": False, "id": None})
+        outs = ["ok", "ok", "ok", "retry", "409", "401", "410", "transport", "malformed"]
+        # answer the attempts in a random order; each answer is (pre outcome, conn outcome)
+        pending = natt
+        for _ in range(natt + 1):
+            if pending <= 0:
+                break
+            n = rng.randrange(pending)
+            pre = rng.choice(outs)
+            conn = rng.choice(outs + ["norunid"])
+            before = len(self.ops)
+            self.answer_connect(pre, conn, n=n)
+            pending -= 1
+            if rng.random() < 0.5:
+                self.ops.append({"op": "appinfo", "key": k, "dt": False, "id": rng.choice([None] + self.all_runs)})
+        for r_ in list(self.all_runs):
+            self.ops.append({"op": "appinfo", "key": k, "dt": False, "id": r_})
+        self.ops.append({"op": "appinfo", "key": k, "dt": False, "id": None})
+        if self.all_runs and rng.random() < 0.7:
+            self.txn(rng.choice(self.all_runs), rich=0.3)
+            self.tick(ah=0, ty=ALL)
+            self.drain(4, {"ok": 3, "409": 1, "410": 1})
+            self.ops.append({"op": "appinfo", "key": k, "dt": False, "id": None})
+        if rng.random() < 0.4:
+            self.exit("ok")
+
     def p_inactivity(self):
         """C03/C12: an application is removed after 10 minutes without activity (tick on a live run)"""
         rng = self.rng
